@@ -37,6 +37,11 @@ fn settings() -> Vec<Setting> {
     for sep in ["$", "$_", "$$", "${_}", "$-", "$$$", "--", "\\", ".*", "→→"] { for lower in [false, true] { for keep in [false, true] {
         v.push(Setting { name: format!("sep={sep:?},lower={lower},keep={keep},max=None"), sep: Some(sep), lower, keep, max: None, preset: None });
     }}}
+    // multi-character separators together with max_length: the sanitised text can be longer than the input, and a cut can
+    // land inside a separator
+    for sep in ["--", "$_", "::", "-=-", "→→", "...."] { for lower in [false, true] { for keep in [false, true] { for max in [0usize, 1, 2, 3, 4, 5, 6, 7, 9] {
+        v.push(Setting { name: format!("sep={sep:?},lower={lower},keep={keep},max={:?}", Some(max)), sep: Some(sep), lower, keep, max: Some(max), preset: None });
+    }}}}
     v.push(Setting { name: "preset=uint".into(), sep: None, lower: false, keep: false, max: None, preset: Some("uint") });
     v
 }
@@ -101,9 +106,24 @@ fn judge(x: &str, s: &Setting, z: &Sanitizer, st: &mut Stats) -> Option<(String,
         return None;
     };
     if sep.chars().count() > 1 {
-        // multi-character separators (only generated without max_length): exact equality with R-SAN and idempotence
+        // multi-character separators: exact equality with R-SAN and idempotence; with max_length the invariants on whole separators
         st.inc("clause_multichar_separator");
         let full = san::san(x, sep, s.lower, s.keep);
+        if let Some(m) = s.max {
+            st.inc("clause_multichar_separator_max_length");
+            if out.chars().count() > m { return Some(("I4_max_length".into(), format!("out {out:?} longer than {m}"))); }
+            if full.chars().count() <= m { if out != full { return Some(("I6_model_mismatch_fits".into(), format!("got {out:?} want {full:?} (fits max {m})"))); } }
+            else if !out.is_empty() {
+                // runs of ASCII letters and digits joined by whole separators, nothing else
+                for piece in out.split(sep) {
+                    if piece.is_empty() || !piece.bytes().all(|b| b.is_ascii_alphanumeric()) { return Some(("I2_partial_or_edge_separator".into(), format!("out {out:?} is not runs joined by {sep:?} (untruncated {full:?})"))); }
+                    if !s.keep && piece.len() > 1 && piece.starts_with('0') && piece.bytes().all(|b| b.is_ascii_digit()) { return Some(("I3_leading_zero".into(), format!("out {out:?}"))); }
+                }
+                if s.keep && !full.starts_with(&out) { return Some(("I6_not_a_truncation".into(), format!("out {out:?}, untruncated {full:?}"))); }
+            }
+            if again != out { return Some(("I5_idempotence".into(), format!("s(x)={out:?} s(s(x))={again:?}"))); }
+            return None;
+        }
         if out != full { return Some(("I6_model_mismatch".into(), format!("out {out:?}, contract {full:?}"))); }
         // idempotent only if the separator cannot itself be re-split differently: re-sanitising must give the same text
         if again != out { return Some(("I5_idempotence".into(), format!("s(x)={out:?} s(s(x))={again:?}"))); }
